@@ -1289,11 +1289,28 @@ func (t *fnTrans) bindRangeSlice(phi *ssa.Phi, vars map[string]Val) {
 		if !ok || bo.Referrers() == nil {
 			continue
 		}
+		// the slice ranged over is the one indexed first in the loop body (`for i, x := range s` starts the body with
+		// x = s[i]); other slices indexed by i (q[i]) come later
+		var first *ssa.IndexAddr
+		firstPos := -1
 		for _, r2 := range *bo.Referrers() {
 			if ia, ok := r2.(*ssa.IndexAddr); ok && ia.Index == ssa.Value(bo) {
-				if v, known := t.vals[ia.X]; known {
-					vars["rangeslice"] = v
+				pos := -1
+				if len(bo.Block().Succs) > 0 && ia.Block() == bo.Block().Succs[0] {
+					for k, in2 := range ia.Block().Instrs {
+						if in2 == ssa.Instruction(ia) {
+							pos = k
+						}
+					}
 				}
+				if first == nil || (pos >= 0 && (firstPos < 0 || pos < firstPos)) {
+					first, firstPos = ia, pos
+				}
+			}
+		}
+		if first != nil {
+			if v, known := t.vals[first.X]; known {
+				vars["rangeslice"] = v
 			}
 		}
 	}
@@ -1622,6 +1639,12 @@ func (t *fnTrans) locate(li *loopInfo, ins ssa.Instruction, heaps map[string]boo
 						if g, isG := av.(*ssa.Global); isG {
 							pends = append(pends, pend{hs, t.eng.globalRef(g), false})
 							done = true
+						} else if fa, isFA := av.(*ssa.FieldAddr); isFA {
+							// *(&x.f) where x is an object fixed across the loop: only that object's field
+							if r, ok := t.objRefTerm(li, fa.X); ok {
+								pends = append(pends, pend{hs, r, false})
+								done = true
+							}
 						} else if _, isP := under(av.Type()).(*types.Pointer); isP && t.definedOutside(li, av) {
 							// *p where p is a pointer fixed across the loop: only that cell
 							if lv, has := t.lvals[av]; !has || lv.Kind == lvCell {
